@@ -357,7 +357,7 @@ func c20(c *Ctx) {
 			allErr := true
 			for _, b := range tg.Blocks {
 				for _, in := range b.Instrs {
-					if ret, ok := an.AsReturn(in); ok && len(ret.Results) == 2 && (!an.MayBeNilConst(an.RetVal(ret, 0)) || an.MayBeNilConst(an.RetVal(ret, 1))) {
+					if ret, ok := an.AsReturn(in); ok && len(ret.Results) == 2 && (!an.MayReturnNil(ret, 0) || an.MayReturnNil(ret, 1)) {
 						allErr = false
 					}
 				}
